@@ -1368,4 +1368,73 @@ def Q.eval (m : Mode) (ff : UInt64 → Option Bytes) : Q → Val → Res
 /-- the decode value `v` as the interpreter's input -/
 def wrap (v : DV) : Val := .dv v
 
+/-! ### the struct Compound with BOTH of its indexes (pkg/decode/value.go, decode.go)
+
+  `decode.Compound` keeps the fields twice: `Children []*Value` (order) and `ByName map[string]*Value`.
+  StructDecodeValue.JQValueKey / JQValueHas (decode.go:775-798, 815-834) answer from `ByName`;
+  JQValueLength / SliceLen / Each / Keys / ToGoJQ (hence `tovalue`) read `Children`. `DV.struct` above is
+  a struct whose two indexes agree; `Cmp` is the struct while it is being built by `D.AddChild`
+  (decode.go:792-808) and `Value.Remove` (value.go:264-293), where they could disagree. -/
+
+structure Cmp where
+  children : List (Bytes × DV)
+  byName : List (Bytes × DV)       -- a Go map (kept sorted by `objSet`)
+deriving Repr, Inhabited
+
+def Cmp.empty : Cmp := { children := [], byName := [] }
+
+def objDel {α} (k : Bytes) : List (Bytes × α) → List (Bytes × α)
+  | [] => []
+  | (k', v) :: rest => if bytesEq k k' then objDel k rest else (k', v) :: objDel k rest
+
+/-- D.AddChild on a struct: `Fatalf("%q already exist in struct")` if the name is in ByName -/
+def Cmp.add (c : Cmp) (k : Bytes) (d : DV) : Option Cmp :=
+  if (objGet k c.byName).isSome then none
+  else some { children := c.children ++ [(k, d)], byName := objSet k d c.byName }
+
+/-- Value.Remove of the field named `k` (names identify fields while the indexes agree):
+    error if it is not in ByName / not among the children; else `delete(fv.ByName, v.Name)` and the
+    child is filtered out of Children -/
+def Cmp.remove (c : Cmp) (k : Bytes) : Option Cmp :=
+  if (objGet k c.byName).isNone then none
+  else if !(c.children.any (fun f => bytesEq f.1 k)) then none
+  else some { children := c.children.filter (fun f => !bytesEq f.1 k), byName := objDel k c.byName }
+
+/-- the seeded change S2-C08-2: Remove without `delete(fv.ByName, v.Name)` -/
+def Cmp.removeNoDelete (c : Cmp) (k : Bytes) : Option Cmp :=
+  if (objGet k c.byName).isNone then none
+  else if !(c.children.any (fun f => bytesEq f.1 k)) then none
+  else some { children := c.children.filter (fun f => !bytesEq f.1 k), byName := c.byName }
+
+/-- StructDecodeValue.JQValueKey: from ByName, else the extra keys -/
+def Cmp.mKey (c : Cmp) (name : Bytes) : Outcome Val :=
+  match objGet name c.byName with
+  | some d => .ok (.dv d)
+  | none => baseKey name
+
+/-- StructDecodeValue.JQValueHas: from ByName, else the extra keys -/
+def Cmp.mHas (c : Cmp) (key : Val) : Outcome Val :=
+  valueOrFallbackHas key (match key with
+    | .str k => .ok (.bool (objGet k c.byName).isSome)
+    | _ => .err .hasKeyType)
+
+/-- everything else (length, keys, each, JQValueToGoJQ, tovalue) reads Children: -/
+def Cmp.toDV (c : Cmp) : DV := .struct c.children
+
+inductive CmpOp where
+  | add (k : Bytes) (d : DV)
+  | rm (k : Bytes)
+deriving Repr, Inhabited
+
+def CmpOp.apply (remove : Cmp → Bytes → Option Cmp) (c : Cmp) : CmpOp → Option Cmp
+  | .add k d => c.add k d
+  | .rm k => remove c k
+
+/-- a history of AddChild / Remove calls; `none` = the decoder stopped with an error -/
+def Cmp.run (remove : Cmp → Bytes → Option Cmp) : List CmpOp → Cmp → Option Cmp
+  | [], c => some c
+  | op :: ops, c => match op.apply remove c with
+    | some c' => Cmp.run remove ops c'
+    | none => none
+
 end FqModel.JQValue
